@@ -328,9 +328,11 @@ def _one(case, bad, tags, ats, voc_tag, voc_at):
     # ---- type-signature references from a compile unit (get_DIE_from_attribute through DW_FORM_ref_sig8), before and after the
     # ---- type units were enumerated
     if case['mode'] == 'types' and case.get('sigrefs'):
-        for pre in (False, True):
+        for pre in (False, True, 'partial'):
             di6 = _mk(case)
-            if pre:
+            if pre == 'partial':
+                next(di6.iter_TUs())          # an abandoned enumeration of the type units
+            elif pre:
                 list(di6.iter_TUs())
             cu = next(di6.iter_CUs())
             if [d.offset for d in cu.iter_DIEs()] != [d['off'] for d in case['cu'][0]['dies']]:
@@ -341,7 +343,7 @@ def _one(case, bad, tags, ats, voc_tag, voc_at):
                 t = d.get_DIE_from_attribute('DW_AT_type')
                 got = [t.offset, getattr(t.cu, 'tu_offset', None)]
                 if got != [r['die'], r['unit']]:
-                    bad('sigref.target', [r['die'], r['unit']], got, t='after_iter' if pre else 'fresh')
+                    bad('sigref.target', [r['die'], r['unit']], got, t={False: 'fresh', True: 'after_iter', 'partial': 'after_partial_iter'}[pre])
     # ---- type units by signature
     if case['mode'] == 'types':
         di4 = _mk(case)
